@@ -317,6 +317,14 @@ impl Driver {
                     log(&self.m, json!({"e": "noop", "why": "drop of dropped handle"}));
                 }
             }
+            "drop_events" => {
+                // the user may drop the ConnectionEvents receiver and keep using the client
+                if self.ev.take().is_some() && !self.ev_ended {
+                    log(&self.m, json!({"e": "events_dropped"}));
+                } else {
+                    log(&self.m, json!({"e": "noop", "why": "no event receiver to drop"}));
+                }
+            }
             "deliver" => {
                 let mut s = self.m.lock().unwrap();
                 let moved = if let Some(u) = st["units"].as_u64() {
